@@ -701,6 +701,9 @@ func c19WhoClears(c *core.Ctx) {
 				continue
 			}
 			h := timerHolder(u.Info(), arg)
+			if _, direct := table[h]; !direct {
+				h = timerHolder(u.Info(), u.Deep(arg)) // `t := holder.Load(); …; t.Stop()`
+			}
 			allowed, known := table[h]
 			if !known {
 				continue
